@@ -238,6 +238,7 @@ def run_case(case):
             t._log_destroy_pending = False
         elif not t.cancelled():
             t.exception()
+    loop.release_fds()
     KEEP.append((loop, pipeline, d))          # no finalisers before os._exit
     return {'trace': d.trace, 'terminal': d.terminal, 'choices': d.choice_log, 'yielded': d.yielded,
             'effective_stops': d.effective_stops, 'forced_unpause': d.forced_unpause, 'final': state,
